@@ -58,6 +58,15 @@ fn continuation(bars: bool, len: usize, salt: u64) -> Vec<Op> {
             c[len / 2] = nf(if salt % 3 == 0 { f64::INFINITY } else { f64::NEG_INFINITY }, bars);
         }
     }
+    // ... and every seventh bar continuation opens with a crossed bar (high below low: a user's bar type may
+    // present one; it is still "the same subsequent input" for both instances)
+    if bars && salt % 7 == 4 {
+        if let Op::NextBar(b) = c[0] {
+            if b.h.is_finite() && b.l.is_finite() && b.h > b.l {
+                c[0] = Op::NextBar(Bar { h: b.l, l: b.h, ..b });
+            }
+        }
+    }
     c
 }
 
